@@ -598,6 +598,11 @@ class Facts:
                         ce[b.path].add(fn)
                         cr[fn].add(b.path)
             for blk in b.blocks:
+                t = blk['t']
+                if t['k'] == 'drop':
+                    for dp in self.drop_impls_for(t['ty']):
+                        ce[b.path].add(dp)
+                        cr[dp].add(b.path)
                 for s in blk['s']:
                     if s['k'] == 'assign' and s['r']['k'] == 'agg' and s['r']['ak'].startswith('Closure:'):
                         c = s['r']['ak'][len('Closure:'):]
@@ -611,6 +616,37 @@ class Facts:
                                 ce[b.path].add(fn)
                                 cr[fn].add(b.path)
         self._callees, self._callers = ce, cr
+
+    def drop_impls_for(self, ty):
+        """crate-local Drop::drop bodies run when a value of type `ty` (string) is dropped: the impl
+        for the type itself and for any local ADT named inside it (fields, generics) - an
+        over-approximation by type-name containment."""
+        if not hasattr(self, '_drop_impls'):
+            self._drop_impls = {}
+            for p, b in self.bodies.items():
+                if b.d.get('impl_trait') == 'std::ops::Drop' and p.endswith('::drop'):
+                    st = b.d.get('impl_self') or ''
+                    base = st.split('<')[0]
+                    self._drop_impls[base] = p
+            # ADT containment: type name -> field type strings
+            self._adt_fields = {a['path']: [f['ty'] for v in a['variants'] for f in v['fields']] for a in self.raw['adts']}
+        res = set()
+        seen = set()
+        stack = [ty]
+        while stack:
+            t = stack.pop()
+            if t in seen:
+                continue
+            seen.add(t)
+            for base, p in self._drop_impls.items():
+                if re.search(r'(?<![A-Za-z0-9_:])' + re.escape(base) + r'(?![A-Za-z0-9_])', t):
+                    res.add(p)
+            for adt, ftys in self._adt_fields.items():
+                if re.search(r'(?<![A-Za-z0-9_:])' + re.escape(adt) + r'(?![A-Za-z0-9_])', t):
+                    for ft in ftys:
+                        if ft not in seen:
+                            stack.append(ft)
+        return res
 
     def transitive_callers(self, paths):
         seen = set(paths)
